@@ -69,4 +69,10 @@ def obligations(tier):
     # E1 (CBMC) half: Snappy/LZ4 decompressors on all inputs of L bytes with symbolic capacity (longer inputs than E2 reaches)
     from props import C08_e1
     o += C08_e1.obligations(tier)
+    # struct frames of the Thrift decoder on inputs nesting deeper than its frame array (an arbitrary-bytes input of >= 33 bytes that the
+    # all-bytes-free windows above are too short for); the obligation is C13's, shared (added after seeded C08-thrift-nesting-guard)
+    from props import C13_e1
+    for ng in C13_e1.nesting_guard(tier):
+        ng.name = 'thrift-' + ng.name
+        o.append(ng)
     return o
